@@ -283,10 +283,10 @@ _cache = {}
 
 
 def analysis(prog, eff, prefix="mpq_"):
-    k = (id(prog), prefix)
-    if k not in _cache:
-        _cache[k] = Analysis(prog, eff, prefix)
-    return _cache[k]
+    c = prog.__dict__.setdefault("_zerotol", {})
+    if prefix not in c:
+        c[prefix] = Analysis(prog, eff, prefix)
+    return c[prefix]
 
 
 def run(prog, eff, scope="simplex", prefix="mpq_", rule="R-ZEROTOL"):
